@@ -8,32 +8,32 @@ namespace Neutrino.Store
 
 /-- every operation of the sequence is issued under its callers' contract, in
 the log the preceding ones have produced -/
-def ContractAll (l : Log) : List Op → Prop
+def ContractSeq (l : Log) : List Op → Prop
   | [] => True
-  | op :: ops => Contract l op ∧ op ≠ .reopen ∧ ContractAll (l.apply op) ops
+  | op :: ops => Contract l op ∧ op ≠ .reopen ∧ ContractSeq (l.apply op) ops
 
-theorem applyAll_append (l : Log) (a b : List Op) : applyAll l (a ++ b) = applyAll (applyAll l a) b := by
+theorem applySeq_append (l : Log) (a b : List Op) : applySeq l (a ++ b) = applySeq (applySeq l a) b := by
   induction a generalizing l with
   | nil => rfl
-  | cons x xs ih => simp only [List.cons_append, applyAll]; exact ih _
+  | cons x xs ih => simp only [List.cons_append, applySeq]; exact ih _
 
-theorem applyAll_take_succ (l : Log) (ops : List Op) (i : Nat) (op : Op) (h : ops[i]? = some op) :
-    applyAll l (ops.take (i + 1)) = (applyAll l (ops.take i)).apply op := by
+theorem applySeq_take_succ (l : Log) (ops : List Op) (i : Nat) (op : Op) (h : ops[i]? = some op) :
+    applySeq l (ops.take (i + 1)) = (applySeq l (ops.take i)).apply op := by
   have : ops.take (i + 1) = ops.take i ++ [op] := by
     rw [List.take_add_one, h]; rfl
-  rw [this, applyAll_append]; rfl
+  rw [this, applySeq_append]; rfl
 
 /-- an undisturbed prefix of the sequence keeps the stores consistent and the
 rest of the sequence under contract -/
-theorem runAll_prefix : ∀ (ops : List Op) (i : Nat) (d : Durable) (l : Log), Rep d l → ContractAll l ops →
-    Rep (runAll d (ops.take i)) (applyAll l (ops.take i)) ∧ ContractAll (applyAll l (ops.take i)) (ops.drop i)
-  | _, 0, d, l, hr, hc => by simpa [runAll, applyAll] using ⟨hr, hc⟩
-  | [], _ + 1, d, l, hr, _ => by simpa [runAll, applyAll, ContractAll] using hr
+theorem runSeq_prefix : ∀ (ops : List Op) (i : Nat) (d : Durable) (l : Log), Rep d l → ContractSeq l ops →
+    Rep (runSeq d (ops.take i)) (applySeq l (ops.take i)) ∧ ContractSeq (applySeq l (ops.take i)) (ops.drop i)
+  | _, 0, d, l, hr, hc => by simpa [runSeq, applySeq] using ⟨hr, hc⟩
+  | [], _ + 1, d, l, hr, _ => by simpa [runSeq, applySeq, ContractSeq] using hr
   | op :: ops, i + 1, d, l, hr, hc => by
     obtain ⟨hc1, hne, hc2⟩ := hc
     have hstep := (C08_resume d l op hr hc1 hne).2
-    simp only [List.take_succ_cons, List.drop_succ_cons, runAll, applyAll]
-    exact runAll_prefix ops i _ _ hstep hc2
+    simp only [List.take_succ_cons, List.drop_succ_cons, runSeq, applySeq]
+    exact runSeq_prefix ops i _ _ hstep hc2
 
 /-- **A crash inside the `i`-th operation of any sequence of store operations.**
 The operations before it ran undisturbed; the process dies at durable step `k`
@@ -42,16 +42,16 @@ succeeds and the stores represent exactly the log after the first `i`
 operations, or after the first `i+1` (for the multi-step rollback: a log it
 passes through) — consistent, filter headers not ahead of block headers. -/
 theorem ops_recover (d : Durable) (l : Log) (ops : List Op) (i k torn : Nat) (op : Op)
-    (hrep : Rep d l) (hc : ContractAll l ops) (hop : ops[i]? = some op) :
-    let r := exec (runAll d (ops.take i)) op (.crash k torn)
+    (hrep : Rep d l) (hc : ContractSeq l ops) (hop : ops[i]? = some op) :
+    let r := exec (runSeq d (ops.take i)) op (.crash k torn)
     (r.2 = .crashed →
         ∃ d' lx, reopen r.1 = some d' ∧ Rep d' lx ∧ lx.filters.length ≤ lx.blocks.length ∧
           (match op with
-           | .rollto _ => Between (applyAll l (ops.take i)) (applyAll l (ops.take (i + 1))) lx
-           | _ => lx = applyAll l (ops.take i) ∨ lx = applyAll l (ops.take (i + 1)))) ∧
-    (r.2 ≠ .crashed → Rep r.1 (applyAll l (ops.take (i + 1)))) := by
+           | .rollto _ => Between (applySeq l (ops.take i)) (applySeq l (ops.take (i + 1))) lx
+           | _ => lx = applySeq l (ops.take i) ∨ lx = applySeq l (ops.take (i + 1)))) ∧
+    (r.2 ≠ .crashed → Rep r.1 (applySeq l (ops.take (i + 1)))) := by
   intro r
-  obtain ⟨hrp, hcp⟩ := runAll_prefix ops i d l hrep hc
+  obtain ⟨hrp, hcp⟩ := runSeq_prefix ops i d l hrep hc
   have hdrop : ops.drop i = op :: ops.drop (i + 1) := by
     have hlt : i < ops.length := (List.getElem?_eq_some_iff.mp hop).1
     rw [List.drop_eq_getElem_cons hlt]
@@ -59,8 +59,8 @@ theorem ops_recover (d : Durable) (l : Log) (ops : List Op) (i k torn : Nat) (op
     exact (List.getElem?_eq_some_iff.mp hop).2
   rw [hdrop] at hcp
   obtain ⟨hc1, hne, _⟩ := hcp
-  have h := C08_recover (runAll d (ops.take i)) (applyAll l (ops.take i)) op k torn hrp hc1 hne
-  rw [applyAll_take_succ l ops i op hop]
+  have h := C08_recover (runSeq d (ops.take i)) (applySeq l (ops.take i)) op k torn hrp hc1 hne
+  rw [applySeq_take_succ l ops i op hop]
   refine ⟨fun hcr => ?_, fun hn => (h.2 hn).2⟩
   obtain ⟨d', lx, h1, h2, h3⟩ := h.1 hcr
   refine ⟨d', lx, h1, h2, h2.fle, ?_⟩
@@ -86,7 +86,7 @@ and new, at most as many filter headers as block headers are written per batch,
 block batch first -/
 theorem importOps_contract (bs : Nat) : ∀ (fuel : Nat) (l : Log) (nb nf : List Nat),
     nb.Nodup → (∀ x ∈ nb, x ∉ l.blocks) → nf.length ≤ nb.length → l.filters.length ≤ l.blocks.length →
-    ContractAll l (importOps bs fuel nb nf)
+    ContractSeq l (importOps bs fuel nb nf)
   | 0, _, _, _, _, _, _, _ => trivial
   | fuel + 1, l, nb, nf, hnd, hfresh, hlen, hfle => by
     unfold importOps
@@ -108,15 +108,15 @@ theorem importOps_contract (bs : Nat) : ∀ (fuel : Nat) (l : Log) (nb nf : List
 
 /-- the log after the first `j` store calls of the import: whole batches of the
 new headers — `⌈j/2⌉` block batches and `⌊j/2⌋` filter batches -/
-theorem applyAll_importOps_take (bs : Nat) (hbs : bs ≥ 1) : ∀ (fuel : Nat) (l : Log) (nb nf : List Nat) (j : Nat),
+theorem applySeq_importOps_take (bs : Nat) (hbs : bs ≥ 1) : ∀ (fuel : Nat) (l : Log) (nb nf : List Nat) (j : Nat),
     fuel ≥ nb.length → nf.length = nb.length →
-    applyAll l ((importOps bs fuel nb nf).take j) =
+    applySeq l ((importOps bs fuel nb nf).take j) =
       { blocks := l.blocks ++ nb.take (bs * ((j + 1) / 2)), filters := l.filters ++ nf.take (bs * (j / 2)) }
   | 0, l, nb, nf, j, hf, hl => by
     have h1 : nb = [] := List.eq_nil_of_length_eq_zero (by omega)
     have h2 : nf = [] := List.eq_nil_of_length_eq_zero (by omega)
     subst h1; subst h2
-    simp [importOps, applyAll]
+    simp [importOps, applySeq]
   | fuel + 1, l, nb, nf, j, hf, hl => by
     unfold importOps
     split
@@ -124,7 +124,7 @@ theorem applyAll_importOps_take (bs : Nat) (hbs : bs ≥ 1) : ∀ (fuel : Nat) (
       have h1 : nb = [] := by simpa using he
       have h2 : nf = [] := List.eq_nil_of_length_eq_zero (by rw [hl, h1]; rfl)
       subst h1; subst h2
-      simp [applyAll]
+      simp [applySeq]
     · rename_i he
       have hne : nb ≠ [] := by simpa using he
       have hpos : nb.length ≥ 1 := by
@@ -132,13 +132,13 @@ theorem applyAll_importOps_take (bs : Nat) (hbs : bs ≥ 1) : ∀ (fuel : Nat) (
         | nil => exact absurd rfl hne
         | cons _ _ => simp
       match j with
-      | 0 => simp [applyAll]
+      | 0 => simp [applySeq]
       | 1 =>
-        simp only [List.take_succ_cons, List.take_zero, applyAll, Log.apply]
+        simp only [List.take_succ_cons, List.take_zero, applySeq, Log.apply]
         simp
       | j + 2 =>
-        simp only [List.take_succ_cons, applyAll]
-        rw [applyAll_importOps_take bs hbs fuel _ (nb.drop bs) (nf.drop bs) j
+        simp only [List.take_succ_cons, applySeq]
+        rw [applySeq_importOps_take bs hbs fuel _ (nb.drop bs) (nf.drop bs) j
           (by simp only [List.length_drop]; omega) (by simp only [List.length_drop]; omega)]
         simp only [Log.apply, List.append_assoc]
         have e1 : (j + 2 + 1) / 2 = (j + 1) / 2 + 1 := by omega
